@@ -155,7 +155,8 @@ type c13Stack struct {
 	physPrefix string // what the views of this stack prepend to a key
 	encrypted  bool
 	hasView    bool
-	outside    map[string][]byte // physical content right after set-up
+	cache      physical.ToggleablePurgemonster // the read cache of this stack, if it has one
+	outside    map[string][]byte               // physical content right after set-up
 	dump       func() (map[string][]byte, error)
 }
 
@@ -208,7 +209,7 @@ func c13Build(base, layer string, raw physical.Backend, dump func() (map[string]
 		}
 		c := physical.NewCache(raw, size, logger, sink)
 		c.SetEnabled(true)
-		st.top = c13Phys{c}
+		st.top, st.cache = c13Phys{c}, c
 	case "encoding":
 		st.top = c13Phys{physical.NewStorageEncoding(raw)}
 	case "pview":
@@ -252,6 +253,7 @@ func c13Build(base, layer string, raw physical.Backend, dump func() (map[string]
 		}
 		c := physical.NewCache(raw, 0, logger, sink)
 		c.SetEnabled(true)
+		st.cache = c
 		b, err := newBarrier(physical.NewStorageEncoding(c))
 		if err != nil {
 			return nil, err
